@@ -51,7 +51,7 @@ pub(crate) enum Instruction {
     SetLocalVar,
     /// Read the value in position given by the instruction
     ReadLocalVar,
-    /// Clears the last callframe's stack
+    /// Clears the stack of the last callframe above its first n locals
     ClearStack,
     /// Returns to right-after-the-last-call-instruction
     /// Also clears the stack until the last call frame
@@ -122,7 +122,6 @@ impl Instruction {
             | Instruction::Less
             | Instruction::LessOrEq
             | Instruction::Pop
-            | Instruction::ClearStack
             | Instruction::Return
             | Instruction::SwapLast
             | Instruction::And
@@ -146,6 +145,7 @@ impl Instruction {
             Instruction::SetGlobalVar => size_of::<VariableId>(),
             Instruction::ReadGlobalVar => size_of::<VariableId>(),
             Instruction::SetLocalVar
+            | Instruction::ClearStack
             | Instruction::SetUpvalue
             | Instruction::ReadUpvalue
             | Instruction::ReadLocalVar => size_of::<u32>(),
